@@ -9,6 +9,8 @@ object whose `Random(seed)` returns an object whose `shuffle(lst)` reorders
 be given the very same order).  Nothing of bandsample itself is re-implemented.
 """
 import collections
+import contextlib
+import io
 import os
 import shutil
 import tempfile
@@ -84,6 +86,7 @@ def op_bandsample(t):
     shim = ShimRandomModule(rank)
     real_random = preprocess.random
     preprocess.random = shim
+    captured = io.StringIO()
     try:
         try:
             kw = {}
@@ -91,7 +94,12 @@ def op_bandsample(t):
                 kw['cutoff'] = num(t['cutoff'])
             if 'seed' in t:
                 kw['seed'] = t['seed']
-            s = preprocess.bandsample(population, int(t['sample_size']), **kw)
+            if t.get('verbose'):
+                # X1: the `if verbose:` blocks run as well; what they print is captured in memory (a
+                # StringIO takes every str; the worker's protocol channel is a private fd anyway)
+                kw['verbose'] = True
+            with contextlib.redirect_stdout(captured):
+                s = preprocess.bandsample(population, int(t['sample_size']), **kw)
             res = {'sample': [[k, _rat(v)] for k, v in s.items()],
                    'type': type(s).__name__,
                    'value_types': sorted({type(v).__name__ for v in s.values()})}
@@ -101,6 +109,8 @@ def op_bandsample(t):
         preprocess.random = real_random
     after = [(k, v, type(v).__name__) for k, v in population.items()]
     res['arg_unchanged'] = (after == before)
+    if t.get('verbose'):
+        res['printed_chars'] = len(captured.getvalue())
     res['shuffle_calls'] = shim.shuffle_calls
     res['shuffled_len'] = shim.shuffled_len
     res['seeds'] = [None if s is None else str(s) for s in shim.seeds]
